@@ -446,7 +446,14 @@ def check(mod, prop, tier, seed, t0, workdir, args):
         log(f"[{prop}] replaying {args.replay}")
     else:
         cases = mod.gen(tier, seed)
-    obs = run_impl(prop, cases, workdir)
+    try:
+        obs = run_impl(prop, cases, workdir)
+    except RuntimeError as e:
+        # the implementation runner itself died (an exception escaped from the harness code around the library call):
+        # that is a broken tie, reported as such, never a Python traceback of the check
+        tie_broken.append({"kind": "impl-runner-crash", "what": f"harness/props/{prop}.py run_impl", "detail": str(e)[-1500:]})
+        log(f"[{prop}] implementation runner crashed: {str(e)[-400:]}")
+        cases, obs = [], []
     t_impl = time.time() - t0
     reasons = [mod.py_spec(c, o) for c, o in zip(cases, obs)]
     py_bad = [i for i, r in enumerate(reasons) if r]
@@ -491,7 +498,11 @@ def check(mod, prop, tier, seed, t0, workdir, args):
             extra = mod.search(seed, tie_broken, [cases[i] for i in model_only[:50]])
         scases = extra + (mod.gen("thorough", seed + 1) if tier == "quick" else mod.gen("thorough", seed + 7))
         scases = scases[: int(os.environ.get("VERIF_SEARCH_MAX", "20000"))]
-        sobs = run_impl(prop, scases, os.path.join(workdir, "search"))
+        try:
+            sobs = run_impl(prop, scases, os.path.join(workdir, "search"))
+        except RuntimeError as e:
+            log(f"[{prop}] implementation runner crashed during the search: {str(e)[-300:]}")
+            scases, sobs = [], []
         searched = len(scases)
         sbad_coq = []
         if corr_built and scases:
